@@ -427,3 +427,15 @@ func (P *Program) Sweep(root string) []*FuncResult {
 	wg.Wait()
 	return results
 }
+
+// inRoot: fn belongs to the root package (where the package invariants are declared).
+func (P *Program) inRoot(fn *ssa.Function) bool {
+	pkg := fn.Pkg
+	if pkg == nil && fn.Origin() != nil {
+		pkg = fn.Origin().Pkg
+	}
+	if pkg == nil && fn.Parent() != nil {
+		return P.inRoot(fn.Parent())
+	}
+	return pkg != nil && pkg.Pkg.Path() == rootPkg
+}
